@@ -94,6 +94,14 @@ def correspondence(chk, drv):
             except ValueError:
                 ans2 = 'err:humidity'
             ch.add(line, ans2)
+            if vac == 'F' and ans2.startswith('ok'):
+                # the SAME object after the setter, asked for the SAME altitudes again (and once more): what it predicts follows its present state
+                for _rep in range(2):
+                    outs = []
+                    for z in zs:
+                        d, m = obj.get_density_factor_and_mach_for_altitude(z)
+                        outs.append('f%d f%d' % (f2b(float(d)), f2b(float(m))))
+                    ca.add('atmo_at ' + sg.enc_atmo(obj) + f' {len(zs)} ' + ' '.join(str(f2b(z)) for z in zs), ' '.join(outs))
         st = U.Foot(rng.uniform(-1400, 40000))
         cs.add(f'atmo_std {f2b(st.raw_value)}', 'f%d f%d' % (f2b(pbc.Atmo.standard_temperature(st).raw_value),
                                                             f2b(pbc.Atmo.standard_pressure(st).raw_value)))
